@@ -75,9 +75,9 @@ theorem C15_sweep_rows {ι : Type*} (S : ι → Matrix n n ℂ) (u : n → ℂ) 
 section Source
 open Generated.Readout
 
-/-- pins `p, q, r_m1` of the traced instance → their matrix indices -/
+/-- pins `p, q, p_m1` of the traced instance → their matrix indices -/
 def idx : Fin 3 → Fin 3 := ![2, 0, 1]
-/-- the traced excitation `{p: up, r_m1: ur}` by matrix index; `q` (index 0) is not mentioned -/
+/-- the traced excitation `{p: up, p_m1: ur}` by matrix index; `q` (index 0) is not mentioned -/
 def exc (up ur : ℂ) : Fin 3 → ℂ := excite [((2 : Fin 3), up), (1, ur)]
 
 theorem exc_vals (up ur : ℂ) : exc up ur 0 = 0 ∧ exc up ur 1 = ur ∧ exc up ur 2 = up := by
@@ -116,7 +116,7 @@ theorem C15_src_output (pin : Fin 3) :
     simp [get_output_amp, get_output_pow, output, outputPower, idx, Matrix.mulVec, dotProduct, Fin.sum_univ_three, e0, e1, e2] <;>
     readout_tie
 
-/-- `get_data("r_m1", "p")`: row `k` holds `|A|²`, `20 log10 |A|`, `arg A`, `A` for the entry of sweep point `k` -/
+/-- `get_data("p_m1", "p")`: row `k` holds `|A|²`, `20 log10 |A|`, `arg A`, `A` for the entry of sweep point `k` -/
 theorem C15_src_data (k : Fin 2) :
     get_data_T S k = ‖S k (idx 2) (idx 0)‖ ^ 2 ∧ get_data_dB S k = 20 * Real.logb 10 ‖S k (idx 2) (idx 0)‖ ∧
     get_data_Phase S k = Complex.arg (S k (idx 2) (idx 0)) ∧ get_data_Amplitude S k = S k (idx 2) (idx 0) := by
